@@ -20,7 +20,7 @@ RULE = ('cases are histories of 4-14 steps: PGPy signing operations over generat
         'implementations; a run is non-trivial when at least one artifact was verified by PGPy after the hop and by the '
         'reference peer; distinct = distinct (step-kind sequence, signature kinds, option-name sets) among non-trivial runs')
 TIERS = {'quick': {'runs': 3000, 'budget_s': 70}, 'thorough': {'runs': 200000, 'budget_s': 1500}}
-PROBES = ('key_form_selfsigs_checked', 'live_object_verified', 'kind_doc', 'kind_text', 'kind_timestamp', 'kind_msg', 'kind_cleartext', 'kind_cert_self', 'kind_cert_other',
+PROBES = ('direct_signature_over_subkey', 'key_form_selfsigs_checked', 'live_object_verified', 'kind_doc', 'kind_text', 'kind_timestamp', 'kind_msg', 'kind_cleartext', 'kind_cert_self', 'kind_cert_other',
           'kind_uattr_cert', 'kind_direct_other', 'kind_direct_self', 'kind_bind', 'kind_revoke_key', 'kind_revoke_subkey',
           'kind_revoke_uid', 'kind_revoker', 'kind_attest', 'ref_signed', 'ref_key_full_verify', 'perturb_armor', 'perturb_reframe',
           'perturb_crlf', 'sign_refused', 'rsa', 'dsa', 'ecdsa', 'eddsa', 'same_second_pair', 'subkey_signed')
